@@ -17,6 +17,7 @@
 (*   IsPureV1 / CnfOf / CnfTree   the documented old-style grammar         *)
 (*        argument (AND) ::= alternative ("," alternative)*     (OR)       *)
 (*        alternative    ::= ["-" | "~"] ["@"] name [":" digits]           *)
+(*        (blanks around an alternative inside one list argument ignored)  *)
 (*   IsPureV2            a well-formed v2 text whose operands cannot be    *)
 (*                       mistaken for v1 syntax                            *)
 (*   IsMixed             an old negation prefix + a new-style operator     *)
@@ -166,7 +167,10 @@ ReadAlt(a) ==
        neg  |-> neg, name |-> segs[1], lim |-> IF Len(segs) >= 2 THEN segs[2] ELSE <<>>]
 ReadGroups(in) ==
    LET ps == Parts(in) IN
-   [i \in DOMAIN ps |-> LET as == SplitOn(ps[i], ",") IN [j \in DOMAIN as |-> ReadAlt(as[j])]]
+   \* inside ONE argument of an argument list, blanks around the commas and at its ends do not count
+   \* (in a string, blanks separate the arguments)
+   [i \in DOMAIN ps |-> LET as == SplitOn(ps[i], ",") IN
+                         [j \in DOMAIN as |-> ReadAlt(IF in.form = "list" THEN Strip(as[j]) ELSE as[j])]]
 OnlyBlanks(in) == ~Contains(AutoText(in), "\t") /\ ~Contains(AutoText(in), "\n")
 IsPureV1(in) ==
    LET gs == ReadGroups(in)  all == Flat(gs) IN
